@@ -600,7 +600,7 @@ def run(ctx, rep):
         rep.missing("R9.2", fid)
 
     # ---- R9.3 consumer table
-    _consumer_table(ctx, ev, rep, orc)
+    _consumer_table(ctx, ev, rep, orc, etab if 'etab' in dir() else None)
 
 
 def _expected_kind(orc, node, single):
@@ -610,7 +610,7 @@ def _expected_kind(orc, node, single):
     return ek[node]
 
 
-def _consumer_table(ctx, ev, rep, orc):
+def _consumer_table(ctx, ev, rep, orc, etab=None):
     f = ctx.facts()
     p = "fastpasta::analyze::validators::its::cdp_running::CdpRunningValidator::<T, C>::check"
     tb = ev.tb(p)
@@ -677,3 +677,11 @@ def _consumer_table(ctx, ev, rep, orc):
         else:
             ok = got[0][:1] == [exp] and not got[1]
             rep.check(ok, "R9.3", "R9.3|%s" % nm, "%s → %s" % (nm, exp), p, "word kind %s is handed to %s (documented: %s)" % (nm, got[0], exp))
+    # every kind the dispatcher has an arm for is produced by the state machine for some (state, identifier, flags),
+    # and nothing else is (an arm that can never be reached means classifier and consumer disagree about a case)
+    if etab is not None:
+        produced = {res[1] for rows in etab.values() for (res, succ) in rows.values() if res}
+        dead = sorted(set(ct) - produced)
+        unhandled = sorted(produced - set(ct))
+        rep.check(not dead and not unhandled, "R9.3", "R9.3|kinds_agree", "the kinds produced by advance() are exactly the kinds check() handles (%d)" % len(produced), p,
+                  "advance() never yields %s although check() handles it; yields %s without a documented handler" % (dead, unhandled))
